@@ -1,4 +1,5 @@
 import SrProofs.Thermal
+import SrProofs.ThermalLiftHistory
 
 /-!
 # C12 — thermal solution is rotation-equivariant and consistent across abstractions
@@ -63,6 +64,203 @@ theorem superposition (P : Prob ℝ) (d e : Data) (a b : ℝ) (T T' : GField ℝ
     (P.withData (Data.comb a b d e)).Solves (GField.comb a b T T') :=
   solves_comb P d e a b T T' hi ho h1 h2
 
+/-! ### 1-D = 2-D = 3-D along whole histories with a temperature-dependent material -/
+
+/-- **material law commutes with the 1-D → 2-D lift.**  If the lagged coefficients of the 1-D step are
+point-wise functions of its previous field, the coefficients of the lifted 2-D step are the same
+functions of ITS previous field (`(P.lift2 Nt dth).Tn`, the 1-D field copied onto every ray). -/
+theorem material_law_lift2 (P : Prob ℝ) (Nt : Nat) (dth : ℝ) (a kfun : ℝ → ℝ)
+    (hc : ∀ i j k, P.c i j k = a (P.Tn i j k)) (hk : ∀ i j k, P.kk i j k = kfun (P.Tn i j k)) :
+    (∀ i j k, (P.lift2 Nt dth).c i j k = a ((P.lift2 Nt dth).Tn i j k)) ∧
+    (∀ i j k, (P.lift2 Nt dth).kk i j k = kfun ((P.lift2 Nt dth).Tn i j k)) ∧
+    (∀ i j k, (P.lift2 Nt dth).Tn i j k = P.Tn i 0 k) :=
+  ⟨(SrModel.Thermal.material_law_lift2 P Nt dth a kfun hc hk).1,
+   (SrModel.Thermal.material_law_lift2 P Nt dth a kfun hc hk).2, fun _ _ _ => rfl⟩
+
+/-- **material law commutes with the 2-D → 3-D lift.** -/
+theorem material_law_lift3 (P : Prob ℝ) (Nz : Nat) (dz : ℝ) (a kfun : ℝ → ℝ)
+    (hc : ∀ i j k, P.c i j k = a (P.Tn i j k)) (hk : ∀ i j k, P.kk i j k = kfun (P.Tn i j k)) :
+    (∀ i j k, (P.lift3 Nz dz).c i j k = a ((P.lift3 Nz dz).Tn i j k)) ∧
+    (∀ i j k, (P.lift3 Nz dz).kk i j k = kfun ((P.lift3 Nz dz).Tn i j k)) ∧
+    (∀ i j k, (P.lift3 Nz dz).Tn i j k = P.Tn i j 0) :=
+  ⟨(SrModel.Thermal.material_law_lift3 P Nz dz a kfun hc hk).1,
+   (SrModel.Thermal.material_law_lift3 P Nz dz a kfun hc hk).2, fun _ _ _ => rfl⟩
+
+/-- the source factor `qc = a/k` follows the lifts the same way -/
+theorem material_qc_lift (P : Prob ℝ) (Nt Nz : Nat) (dth dz : ℝ) (qfun : ℝ → ℝ)
+    (hq : ∀ i j k, P.qc i j k = qfun (P.Tn i j k)) :
+    (∀ i j k, (P.lift2 Nt dth).qc i j k = qfun ((P.lift2 Nt dth).Tn i j k)) ∧
+    (∀ i j k, (P.lift3 Nz dz).qc i j k = qfun ((P.lift3 Nz dz).Tn i j k)) :=
+  ⟨material_qc_lift2 P Nt dth qfun hq, material_qc_lift3 P Nz dz qfun hq⟩
+
+/-- **axisym_2d_is_1d for whole histories** (every step and sub-step): whatever links `P (n+1)` to
+`T (n+1)`, the 1-D solutions copied onto every ray solve the lifted 2-D steps. -/
+theorem axisym_history (P : Nat → Prob ℝ) (T : Nat → GField ℝ) (Nt : Nat) (dth : ℝ)
+    (h1 : ∀ n, (P n).ndim = 1) (hsol : ∀ n, (P n).Solves (T (n+1))) :
+    ∀ n, ((P n).lift2 Nt dth).Solves (fun i _ k => T (n+1) i 0 k) :=
+  history_lift2 P T Nt dth h1 hsol
+
+/-- **uniform_3d_is_2d for whole histories.** -/
+theorem uniform3d_history (P : Nat → Prob ℝ) (T : Nat → GField ℝ) (Nz : Nat) (dz : ℝ)
+    (h2 : ∀ n, (P n).ndim = 2) (hsol : ∀ n, (P n).Solves (T (n+1))) :
+    ∀ n, ((P n).lift3 Nz dz).Solves (fun i j _ => T (n+1) i j 0) :=
+  history_lift3 P T Nz dz h2 hsol
+
+/-- **the 2-D solver cannot return anything else**: under the hypotheses of `step_unique` on the
+lifted step, every solution `S` of the lifted 2-D step is the 1-D solution on every ray (real nodes) -/
+theorem lift2_unique (P : Prob ℝ) (T S : GField ℝ) (Nt : Nat) (dth : ℝ) (h1 : P.ndim = 1)
+    (hsol : P.Solves T) (hS : (P.lift2 Nt dth).Solves S)
+    (hs : (P.lift2 Nt dth).Sized) (hst : (P.lift2 Nt dth).steady = false)
+    (hdt : 0 < (P.lift2 Nt dth).dt) (hw : (P.lift2 Nt dth).WeightsNonneg)
+    (hci : ∀ tf h, (P.lift2 Nt dth).inner = .conv tf h →
+      ∀ j k, 0 ≤ (P.lift2 Nt dth).dr * h j k / (P.lift2 Nt dth).kk 1 j k)
+    (hco : ∀ tf h, (P.lift2 Nt dth).outer = .conv tf h →
+      ∀ j k, 0 ≤ (P.lift2 Nt dth).dr * h j k / (P.lift2 Nt dth).kk (P.lift2 Nt dth).N j k) :
+    ∀ i j k, (P.lift2 Nt dth).isRealI i = true → (P.lift2 Nt dth).isRealJ j = true →
+      (P.lift2 Nt dth).isRealK k = true → S i j k = T i 0 k :=
+  SrModel.Thermal.lift2_unique P T S Nt dth h1 hsol hS hs hst hdt hw hci hco
+
+/-- **the 3-D solver cannot return anything else** -/
+theorem lift3_unique (P : Prob ℝ) (T S : GField ℝ) (Nz : Nat) (dz : ℝ) (h2 : P.ndim = 2)
+    (hsol : P.Solves T) (hS : (P.lift3 Nz dz).Solves S)
+    (hs : (P.lift3 Nz dz).Sized) (hst : (P.lift3 Nz dz).steady = false)
+    (hdt : 0 < (P.lift3 Nz dz).dt) (hw : (P.lift3 Nz dz).WeightsNonneg)
+    (hci : ∀ tf h, (P.lift3 Nz dz).inner = .conv tf h →
+      ∀ j k, 0 ≤ (P.lift3 Nz dz).dr * h j k / (P.lift3 Nz dz).kk 1 j k)
+    (hco : ∀ tf h, (P.lift3 Nz dz).outer = .conv tf h →
+      ∀ j k, 0 ≤ (P.lift3 Nz dz).dr * h j k / (P.lift3 Nz dz).kk (P.lift3 Nz dz).N j k) :
+    ∀ i j k, (P.lift3 Nz dz).isRealI i = true → (P.lift3 Nz dz).isRealJ j = true →
+      (P.lift3 Nz dz).isRealK k = true → S i j k = T i j 0 :=
+  SrModel.Thermal.lift3_unique P T S Nz dz h2 hsol hS hs hst hdt hw hci hco
+
+/-- one transient step is unique on every node the next step reads (`Prob.used`: real nodes and ghost
+nodes with one ghost index), not only on the real nodes — what the induction over steps needs,
+because `setup_step` evaluates the material on the whole ghosted field -/
+theorem step_unique_used (P : Prob ℝ) (T T' : GField ℝ) (hok : P.UniqueOK)
+    (h1 : P.Solves T) (h2 : P.Solves T') : ∀ i j k, P.used i j k → T i j k = T' i j k :=
+  SrModel.Thermal.step_unique_used P T T' hok.sized hok.trans hok.dtpos hok.wnn hok.convI hok.convO
+    hok.fixI hok.fixO h1 h2
+
+/-- a step reads its lagged fields on the used nodes only (`c`) / on the real nodes only
+(`kk`, `qc`, `Tn`): replacing them elsewhere does not change what `Solves` means -/
+theorem solves_reads_used (P : Prob ℝ) (Tn c kk qc T : GField ℝ)
+    (hc : ∀ i j k, P.used i j k → c i j k = P.c i j k)
+    (hk : ∀ i j k, P.isRealI i = true → P.isRealJ j = true → P.isRealK k = true →
+      kk i j k = P.kk i j k)
+    (hq : ∀ i j k, P.isRealI i = true → P.isRealJ j = true → P.isRealK k = true →
+      qc i j k = P.qc i j k)
+    (hT : ∀ i j k, P.isRealI i = true → P.isRealJ j = true → P.isRealK k = true →
+      Tn i j k = P.Tn i j k)
+    (hs : P.Sized) (hsol : P.Solves T) : (P.withLag Tn c kk qc).Solves T :=
+  solves_withLag P Tn c kk qc hc T hk hq hT hs hsol
+
+/-- **determinism of a transient history**: initial field + step data + material law fix every
+later field on the used nodes -/
+theorem history_unique (L Q : Nat → Prob ℝ) (U S : Nat → GField ℝ) (a kfun qfun : ℝ → ℝ)
+    (hgrid : ∀ n, (L n).ndim = (L 0).ndim ∧ (L n).N = (L 0).N ∧
+      ((L 0).ndim ≥ 2 → (L n).Nt = (L 0).Nt) ∧ ((L 0).ndim ≥ 3 → (L n).Nz = (L 0).Nz))
+    (hLp : ∀ n i j k, (L n).Tn i j k = U n i j k) (hLlaw : ∀ n, (L n).Law a kfun qfun)
+    (hQp : ∀ n i j k, (Q n).Tn i j k = S n i j k) (hQlaw : ∀ n, (Q n).Law a kfun qfun)
+    (hdata : ∀ n, (Q n).withLagged (L n) = L n)
+    (hLsol : ∀ n, (L n).Solves (U (n+1))) (hQsol : ∀ n, (Q n).Solves (S (n+1)))
+    (h0 : ∀ i j k, (L 0).used i j k → S 0 i j k = U 0 i j k)
+    (hok : ∀ n, (L n).UniqueOK) :
+    ∀ n i j k, (L 0).used i j k → S n i j k = U n i j k :=
+  SrModel.Thermal.history_unique L Q U S a kfun qfun hgrid hLp hLlaw hQp hQlaw hdata hLsol hQsol h0 hok
+
+/-- **axisym_2d_is_1d, whole history, with uniqueness.**  1-D history `P n`/`T` with a point-wise
+material law on its previous field `T n`; 2-D history `Q n`/`S` with the lifted step data
+(`hdata`), ITS OWN previous field `S n` and the same law on it.  If `S 0` is `T 0` on every ray,
+then `S n` is `T n` on every ray for all `n`: on every used node … -/
+theorem axisym_history_unique (P Q : Nat → Prob ℝ) (T S : Nat → GField ℝ) (Nt : Nat) (dth : ℝ)
+    (a kfun qfun : ℝ → ℝ)
+    (h1 : ∀ n, (P n).ndim = 1) (hN : ∀ n, (P n).N = (P 0).N)
+    (hPp : ∀ n i j k, (P n).Tn i j k = T n i j k) (hPlaw : ∀ n, (P n).Law a kfun qfun)
+    (hPsol : ∀ n, (P n).Solves (T (n+1)))
+    (hQp : ∀ n i j k, (Q n).Tn i j k = S n i j k) (hQlaw : ∀ n, (Q n).Law a kfun qfun)
+    (hdata : ∀ n, (Q n).withLagged ((P n).lift2 Nt dth) = (P n).lift2 Nt dth)
+    (hQsol : ∀ n, (Q n).Solves (S (n+1)))
+    (h0 : ∀ i j k, ((P 0).lift2 Nt dth).used i j k → S 0 i j k = T 0 i 0 k)
+    (hok : ∀ n, ((P n).lift2 Nt dth).UniqueOK) :
+    ∀ n i j k, ((P 0).lift2 Nt dth).used i j k → S n i j k = T n i 0 k :=
+  lift2_history_unique P Q T S Nt dth a kfun qfun h1 hN hPp hPlaw hPsol hQp hQlaw hdata hQsol h0 hok
+
+/-- … in particular on every real node -/
+theorem axisym_history_unique_real (P Q : Nat → Prob ℝ) (T S : Nat → GField ℝ) (Nt : Nat) (dth : ℝ)
+    (a kfun qfun : ℝ → ℝ)
+    (h1 : ∀ n, (P n).ndim = 1) (hN : ∀ n, (P n).N = (P 0).N)
+    (hPp : ∀ n i j k, (P n).Tn i j k = T n i j k) (hPlaw : ∀ n, (P n).Law a kfun qfun)
+    (hPsol : ∀ n, (P n).Solves (T (n+1)))
+    (hQp : ∀ n i j k, (Q n).Tn i j k = S n i j k) (hQlaw : ∀ n, (Q n).Law a kfun qfun)
+    (hdata : ∀ n, (Q n).withLagged ((P n).lift2 Nt dth) = (P n).lift2 Nt dth)
+    (hQsol : ∀ n, (Q n).Solves (S (n+1)))
+    (h0 : ∀ i j k, ((P 0).lift2 Nt dth).used i j k → S 0 i j k = T 0 i 0 k)
+    (hok : ∀ n, ((P n).lift2 Nt dth).UniqueOK) :
+    ∀ n i j k, 1 ≤ i ∧ i ≤ (P 0).N → 1 ≤ j ∧ j ≤ Nt → k = 0 → S n i j k = T n i 0 k := by
+  intro n i j k hi hj hk
+  refine lift2_history_unique P Q T S Nt dth a kfun qfun h1 hN hPp hPlaw hPsol hQp hQlaw hdata
+    hQsol h0 hok n i j k (used_real _ ?_ ?_ ?_)
+  · simp [Prob.isRealI, Prob.lift2]; exact ⟨hi.1, decide_eq_true hi.2⟩
+  · simp [Prob.isRealJ, Prob.lift2]; exact ⟨hj.1, decide_eq_true hj.2⟩
+  · simp [Prob.isRealK, Prob.lift2]; exact hk
+
+/-- **uniform_3d_is_2d, whole history, with uniqueness.** -/
+theorem uniform3d_history_unique (P Q : Nat → Prob ℝ) (T S : Nat → GField ℝ) (Nz : Nat) (dz : ℝ)
+    (a kfun qfun : ℝ → ℝ)
+    (h2 : ∀ n, (P n).ndim = 2) (hN : ∀ n, (P n).N = (P 0).N) (hNt : ∀ n, (P n).Nt = (P 0).Nt)
+    (hPp : ∀ n i j k, (P n).Tn i j k = T n i j k) (hPlaw : ∀ n, (P n).Law a kfun qfun)
+    (hPsol : ∀ n, (P n).Solves (T (n+1)))
+    (hQp : ∀ n i j k, (Q n).Tn i j k = S n i j k) (hQlaw : ∀ n, (Q n).Law a kfun qfun)
+    (hdata : ∀ n, (Q n).withLagged ((P n).lift3 Nz dz) = (P n).lift3 Nz dz)
+    (hQsol : ∀ n, (Q n).Solves (S (n+1)))
+    (h0 : ∀ i j k, ((P 0).lift3 Nz dz).used i j k → S 0 i j k = T 0 i j 0)
+    (hok : ∀ n, ((P n).lift3 Nz dz).UniqueOK) :
+    ∀ n i j k, ((P 0).lift3 Nz dz).used i j k → S n i j k = T n i j 0 :=
+  lift3_history_unique P Q T S Nz dz a kfun qfun h2 hN hNt hPp hPlaw hPsol hQp hQlaw hdata hQsol h0 hok
+
+theorem uniform3d_history_unique_real (P Q : Nat → Prob ℝ) (T S : Nat → GField ℝ) (Nz : Nat) (dz : ℝ)
+    (a kfun qfun : ℝ → ℝ)
+    (h2 : ∀ n, (P n).ndim = 2) (hN : ∀ n, (P n).N = (P 0).N) (hNt : ∀ n, (P n).Nt = (P 0).Nt)
+    (hPp : ∀ n i j k, (P n).Tn i j k = T n i j k) (hPlaw : ∀ n, (P n).Law a kfun qfun)
+    (hPsol : ∀ n, (P n).Solves (T (n+1)))
+    (hQp : ∀ n i j k, (Q n).Tn i j k = S n i j k) (hQlaw : ∀ n, (Q n).Law a kfun qfun)
+    (hdata : ∀ n, (Q n).withLagged ((P n).lift3 Nz dz) = (P n).lift3 Nz dz)
+    (hQsol : ∀ n, (Q n).Solves (S (n+1)))
+    (h0 : ∀ i j k, ((P 0).lift3 Nz dz).used i j k → S 0 i j k = T 0 i j 0)
+    (hok : ∀ n, ((P n).lift3 Nz dz).UniqueOK) :
+    ∀ n i j k, 1 ≤ i ∧ i ≤ (P 0).N → 1 ≤ j ∧ j ≤ (P 0).Nt → 1 ≤ k ∧ k ≤ Nz →
+      S n i j k = T n i j 0 := by
+  intro n i j k hi hj hk
+  refine lift3_history_unique P Q T S Nz dz a kfun qfun h2 hN hNt hPp hPlaw hPsol hQp hQlaw hdata
+    hQsol h0 hok n i j k (used_real _ ?_ ?_ ?_)
+  · simp [Prob.isRealI, Prob.lift3]; exact ⟨hi.1, decide_eq_true hi.2⟩
+  · simp [Prob.isRealJ, Prob.lift3]; exact ⟨hj.1, decide_eq_true hj.2⟩
+  · simp [Prob.isRealK, Prob.lift3]; exact ⟨hk.1, decide_eq_true hk.2⟩
+
+/-- **2-D run = 1-D run, in the shape of the code**: each run evaluates the material
+`(a, kfun, qfun)` on its own whole ghosted previous field (`Prob.withPrev`, as `setup_step` does);
+`G n` are the 1-D step data (geometry, time step, source, walls). -/
+theorem axisym_run_unique (G : Nat → Prob ℝ) (T S : Nat → GField ℝ) (Nt : Nat) (dth : ℝ)
+    (a kfun qfun : ℝ → ℝ)
+    (h1 : ∀ n, (G n).ndim = 1) (hN : ∀ n, (G n).N = (G 0).N)
+    (hT : ∀ n, ((G n).withPrev a kfun qfun (T n)).Solves (T (n+1)))
+    (hS : ∀ n, (((G n).lift2 Nt dth).withPrev a kfun qfun (S n)).Solves (S (n+1)))
+    (h0 : ∀ i j k, ((G 0).lift2 Nt dth).used i j k → S 0 i j k = T 0 i 0 k)
+    (hok : ∀ n, (((G n).withPrev a kfun qfun (T n)).lift2 Nt dth).UniqueOK) :
+    ∀ n i j k, ((G 0).lift2 Nt dth).used i j k → S n i j k = T n i 0 k :=
+  lift2_run_unique G T S Nt dth a kfun qfun h1 hN hT hS h0 hok
+
+/-- **3-D run = 2-D run, in the shape of the code.** -/
+theorem uniform3d_run_unique (G : Nat → Prob ℝ) (T S : Nat → GField ℝ) (Nz : Nat) (dz : ℝ)
+    (a kfun qfun : ℝ → ℝ)
+    (h2 : ∀ n, (G n).ndim = 2) (hN : ∀ n, (G n).N = (G 0).N) (hNt : ∀ n, (G n).Nt = (G 0).Nt)
+    (hT : ∀ n, ((G n).withPrev a kfun qfun (T n)).Solves (T (n+1)))
+    (hS : ∀ n, (((G n).lift3 Nz dz).withPrev a kfun qfun (S n)).Solves (S (n+1)))
+    (h0 : ∀ i j k, ((G 0).lift3 Nz dz).used i j k → S 0 i j k = T 0 i j 0)
+    (hok : ∀ n, (((G n).withPrev a kfun qfun (T n)).lift3 Nz dz).UniqueOK) :
+    ∀ n i j k, ((G 0).lift3 Nz dz).used i j k → S n i j k = T n i j 0 :=
+  lift3_run_unique G T S Nz dz a kfun qfun h2 hN hNt hT hS h0 hok
+
 /-! ### non-vacuity: rotating a uniform 2-D solution -/
 noncomputable def ex : Prob ℝ :=
   { ndim := 2, N := 2, Nt := 3, Nz := 0, steady := false, dt := 1, dr := 1, dth := 1, dz := 1,
@@ -77,5 +275,59 @@ example : ex.Solves (fun _ _ _ => 5) := by
   · intro h; simp [ex] at h
 example : ex.CPeriodicPt := by intro i k; simp [ex]
 example : ex.ndim ≥ 2 ∧ 2 ≤ ex.Nt := by simp [ex]
+
+/-! ### non-vacuity of the history theorems: a 1-D run with a temperature-dependent material, a
+convective inner wall and a fixed outer wall, held at the uniform temperature 5, and its 2-D lift -/
+noncomputable def exG : Prob ℝ :=
+  { ndim := 1, N := 2, Nt := 0, Nz := 0, steady := false, dt := 1, dr := 1, dth := 1, dz := 1,
+    rr := fun i => 9 + i, c := fun _ _ _ => 0, kk := fun _ _ _ => 0, qc := fun _ _ _ => 0,
+    src := fun _ _ _ => 0, Tn := fun _ _ _ => 0,
+    inner := .conv (fun _ _ => 5) (fun _ _ => 1), outer := .fix (fun _ _ => 5) }
+noncomputable def exA : ℝ → ℝ := fun t => t / 5
+noncomputable def exQ : ℝ → ℝ := fun _ => 1
+
+theorem exG_solves : (exG.withPrev exA exA exQ (fun _ _ _ => 5)).Solves (fun _ _ _ => 5) := by
+  refine ⟨?_, ?_, ?_, ?_, ?_⟩
+  · intro i j k _ _ _
+    simp [exG, Prob.withPrev, Prob.withLag, Prob.lhsReal, Prob.rhsReal, Prob.applyA]
+  · intro j k _ _; simp [exG, Prob.withPrev, Prob.withLag, Prob.innerRes]
+  · intro j k _ _; simp [exG, Prob.withPrev, Prob.withLag, Prob.outerRes]
+  · intro h; simp [exG, Prob.withPrev, Prob.withLag] at h
+  · intro h; simp [exG, Prob.withPrev, Prob.withLag] at h
+
+theorem exG_ok : ((exG.withPrev exA exA exQ (fun _ _ _ => 5)).lift2 3 1).UniqueOK := by
+  refine ⟨⟨?_, ?_, ?_⟩, rfl, ?_, ?_, ?_, ?_, ?_, ?_⟩
+  · simp [exG, Prob.withPrev, Prob.withLag, Prob.lift2]
+  · intro _; simp [exG, Prob.withPrev, Prob.withLag, Prob.lift2]
+  · intro h; simp [exG, Prob.withPrev, Prob.withLag, Prob.lift2] at h
+  · simp [exG, Prob.withPrev, Prob.withLag, Prob.lift2]
+  · apply weightsNonneg_of_pos
+    · intro i j k; simp [exG, exA, Prob.withPrev, Prob.withLag, Prob.lift2]
+    · intro i _; simp [exG, Prob.withPrev, Prob.withLag, Prob.lift2]; positivity
+    · intro i _; simp [exG, Prob.withPrev, Prob.withLag, Prob.lift2, Prob.rh]; positivity
+  · intro tf h hw j k
+    simp [exG, Prob.withPrev, Prob.withLag, Prob.lift2, Wall.lift2] at hw
+    simp [exG, exA, Prob.withPrev, Prob.withLag, Prob.lift2, ← hw.2]
+  · intro tf h hw
+    simp [exG, Prob.withPrev, Prob.withLag, Prob.lift2, Wall.lift2] at hw
+  · intro v hw
+    simp [exG, Prob.withPrev, Prob.withLag, Prob.lift2, Wall.lift2] at hw
+  · intro v _
+    refine ⟨by simp [exG, Prob.withPrev, Prob.withLag, Prob.lift2], ?_⟩
+    intro j k _ _
+    simp [exG, exA, Prob.withPrev, Prob.withLag, Prob.lift2, Prob.wrp, Prob.rh, Prob.ahr]
+    norm_num
+
+/-- every 2-D run on the lifted data that starts at the uniform field and evaluates the material on
+its own previous field stays at the 1-D solution (all hypotheses of `axisym_run_unique` hold) … -/
+example (S : Nat → GField ℝ) (h0 : ∀ i j k, S 0 i j k = 5)
+    (hS : ∀ n, ((exG.lift2 3 1).withPrev exA exA exQ (S n)).Solves (S (n+1))) :
+    ∀ n i j k, (exG.lift2 3 1).used i j k → S n i j k = 5 :=
+  axisym_run_unique (fun _ => exG) (fun _ _ _ _ => 5) S 3 1 exA exA exQ (fun _ => rfl) (fun _ => rfl)
+    (fun _ => exG_solves) hS (fun i j k _ => h0 i j k) (fun _ => exG_ok)
+
+/-- … and such a 2-D run exists -/
+example : ((exG.lift2 3 1).withPrev exA exA exQ (fun _ _ _ => 5)).Solves (fun _ _ _ => 5) :=
+  axisym_2d_is_1d _ _ 3 1 rfl exG_solves
 
 end SrProps.C12
